@@ -96,6 +96,13 @@ CHECKS = {
        'namespace map / iframe flag are restored on return.',
   design_ref='DESIGN.md §4 C04',
   technique='CrossHair symbolic execution of real matcher + z3 (symbolic attribute strings, histories by symbolic index), replay'),
+ 'C05': dict(
+  text='Metamorphic checking of the union / complement / intersection laws on the real select(): pairs (A, B) from a pool '
+       'of ~130 alternatives covering every pseudo-class the live parser accepts (HTML-only and state pseudo-classes, '
+       'namespaced types, custom aliases, :dir/:defined) are chosen by a seed-scrambled symbolic index; each pair is '
+       'evaluated under 3 namespace maps on 10 documents (HTML from two parsers, XHTML, XML, iframe, inline SVG).',
+  design_ref='DESIGN.md §4 C05',
+  technique='CrossHair-driven bounded exploration of real select() (solver-chosen selector pairs), metamorphic set laws, replay'),
 }
 
 NOT_APPLICABLE = {
